@@ -115,7 +115,7 @@ SPECS.update({
                  "against a table computed from a refwire walk of the same bytes (last occurrence / all occurrences with packed runs expanded / "
                  "not-found / not-defined / wire-type mismatch / overflow); non-trivial when the message has >=2 fields and the tag is present; "
                  "distinct by (accessor, wire type of the field, outcome class, mode, entry point, nesting depth)"),
-        "explanation": "messages: 1-12 fields, nesting <=3, all four wire types, repeated and packed runs, empty strings and empty nested messages, field numbers up to 2^29-1, every 50th case the empty message; definitions over present/absent/nested tags with negative twins; entry points Decode function, Decoder safe, Decoder fast; three mutated/random byte strings per message are decoded and every accessor called with only 'no panic' judged",
+        "explanation": "messages: 1-12 fields, nesting <=3, all four wire types, repeated and packed runs, empty strings and empty nested messages, field numbers up to 2^29-1, every 50th case the empty message; definitions over present/absent/nested tags with negative twins; entry points Decode function, Decoder safe, Decoder fast; three mutated/random byte strings per message are decoded and every accessor called with only 'no panic' judged; every 3rd case additionally keeps four results of one Decoder alive together (interleaved reads, sibling Close, recycled decode) and re-reads nested results handed out earlier",
         "assumptions": TRUST_LAZY + ["a packed run containing a 10-byte varint with overflow bits is outside the precondition and not judged"],
     },
     "C14": {
@@ -216,7 +216,7 @@ SPECS.update({
         "rule": ("one case = one message value of one generated type (unit x flavour {gogo, gv1, gv2} x generator options) built through reflection on fresh structs; "
                  "Size(), Marshal() and MarshalTo(buffer of exactly Size() bytes, canary-framed, filled 0xAA then 0x55) must agree: equal lengths, every byte written, no overrun, "
                  "no truncated copy (encoder hook), no panic; non-trivial when >=1 field is populated; distinct by (package, message, field + boundary class | random field-number set)"),
-        "explanation": "values: the empty message, every field alone at each boundary value / container shape (lists 1,2,127,128; maps 0,1,3; empty and full nested messages in fields, lists, maps, oneofs), then seeded random combinations; required fields always set; violations are shrunk field by field and signed by (flavour, failure kind, populated field shapes)",
+        "explanation": "values: the empty message, every field alone at each boundary value / container shape (lists 1,2,127,128; maps 0,1,3; empty and full nested messages in fields, lists, maps, oneofs), then seeded random combinations; required fields always set; violations are shrunk field by field and signed by (flavour, failure kind, populated field shapes); every boundary case and every 4th random case is evaluated a second time in the 'empty but allocated' Go representation (nil lists, maps and presence-less bytes rewritten to empty non-nil values by Go reflection: same contents)",
         "assumptions": TRUST_GEN,
     },
     "C05": {
@@ -226,7 +226,7 @@ SPECS.update({
         "rule": ("one case = one message value of one generated type; the bytes of the generated Marshal() are parsed by dynamicpb from the unit's descriptor and compared with the original value "
                  "(deterministic re-encoding must be byte-identical: presence, NaN payloads, -0.0 count); differences are itemised per field path (missing / phantom / value-changed / count-changed / unknown-changed) "
                  "and each item is judged separately; non-trivial when >=1 field is populated; distinct by (package, message, field + boundary class | random field-number set)"),
-        "explanation": "same value space as C04",
+        "explanation": "same value space as C04 (including the 'empty but allocated' second pass)",
         "assumptions": TRUST_GEN,
     },
 })
@@ -327,7 +327,7 @@ SPECS.update({
                  "and (through reflection) to the generated struct; the bytes must equal the generated Marshal of a fresh struct built from the model (for maps with >=2 entries: equal length and equal reference parse); a step whose fresh copy "
                  "fails too is a content defect owned by C04/C05/C17 and is not counted; non-trivial when >=1 mutation precedes the marshal; distinct by (flavour, message, last op bigram). "
                  "concurrent: G in {2,8,16,64} goroutines x GOMAXPROCS {1,2,16} call Size/Marshal/csproto.Marshal/runtime Marshal on one quiescent struct under -race; every result must equal the pre-computed bytes"),
-        "explanation": "violations are signed by (flavour, failing call, failure kind, history cause: whether csproto or the owning runtime computed a size before, and whether a mutation followed)",
+        "explanation": "violations are signed by (flavour, failing call, failure kind, history cause: whether csproto or the owning runtime computed a size before, and whether a mutation followed); history steps include Clone (the model continues from what the clone holds) and 'alloc-empty-containers' (representation change only); message types with declared extensions are included with their extensions unset",
         "assumptions": TRUST_GEN + ["message types with declared extensions are skipped here (content-level known findings dominate them)", "the race detector only sees races on executions that happened"],
     },
 })
@@ -461,7 +461,7 @@ SPECS.update({
                  "MsgType equals the flavour's class; csproto.Equal across runtimes is false; unsupported values (nil, int, string, struct, pointer to non-message, typed nil, slice) give the documented error/zero result without panic; "
                  "distinct by (flavour, plain/fast, message, value class). concurrent: rounds in which G in {2,16,64} goroutines (GOMAXPROCS 1,2,16) call MsgType/Clone/MarshalText on values of types whose classification was just "
                  "evicted (verif hook), with seeded yields between cache miss and store, under -race; every goroutine must observe the correct class; evidence counts rounds with >=2 goroutines inside the miss window"),
-        "explanation": "fast types with declared extensions are skipped (their generated extension code is listed under C04-C08); gogo well-known types are exercised as fields of plain gogo types",
+        "explanation": "every case ends with Size/Marshal after lock-step in-place mutations of the message that was sized and marshaled before (oracle: the owning runtime's Marshal of a fresh copy of the current contents); gogo well-known types are exercised as fields of plain gogo types",
         "assumptions": TRUST_GEN + ["the owning runtime's API is the stated oracle for Clone/Equal/Reset/MarshalText", "the race detector only sees races on executions that happened"],
     },
 })
@@ -492,7 +492,7 @@ SPECS.update({
                  "equal as a JSON tree to the owning runtime's own encoder given the same options (protojson / golang jsonpb / gogo jsonpb called directly), be restored to an equal message by JSONUnmarshaler and by the owning runtime's decoder; "
                  "indentation must be whole copies of the indent string; enum fields are numbers iff requested; zero-valued implicit fields appear iff requested; JSON with an injected unknown key is accepted iff allowed; JSON lacking a required key "
                  "is accepted iff allowPartial (Google V2, as documented); nil -> (nil, nil), unmarshal into nil -> error; distinct by (flavour, message, option tuple, value class)"),
-        "explanation": "values with NaN or -0.0 are excluded (JSON cannot carry the distinction); comparisons are on parsed JSON trees, never on raw text",
+        "explanation": "values with NaN or -0.0 are excluded (JSON cannot carry the distinction); comparisons are on parsed JSON trees, never on raw text; well-known types are additionally run as root messages (Value of all six kinds incl. null, Struct, ListValue, Timestamp, Duration, wrappers, FieldMask, Empty) for the Google V2 and Gogo runtimes, restricted to values the owning runtime's own JSON codec round-trips",
         "assumptions": TRUST_GEN + ["the owning runtime's JSON implementation is the stated oracle for option effects"],
     },
 })
@@ -537,7 +537,7 @@ SPECS.update({
                  "protodump: one case = one run of the real binary (built from the tree under test) on a seeded valid or malformed message with seeded -expand / -strings path sets, given through -file, redirected stdin or a pipe: stdout must equal "
                  "the reference rendering (one tag/wire-type header per field in wire order, value lines, recursion exactly into the requested paths), exit status 0 iff the input is well-formed, never a Go panic; "
                  "distinct by (decoration set, length class) resp. (input channel, number of expand/strings paths, valid?)"),
-        "explanation": "line breaks inside a digit pair are not generated (documented as line-by-line); expand paths are only requested for fields that hold nested messages; path elements are >=1",
+        "explanation": "line breaks inside a digit pair are not generated (documented as line-by-line); expand paths are only requested for fields that hold nested messages; path elements are >=1; five families of texts with one physical line of 64-76 KiB (single-line dumps, long comment, long blank run, long line in the middle), each also with foreign text after the long line that must be rejected",
         "assumptions": TRUST_WIRE[:2],
     },
 })
